@@ -194,6 +194,18 @@ def apply_edit(p, v, op, n):
         if not os.path.exists(j(lib, 'deep')):
             return None
         shutil.rmtree(j(lib, 'deep'))
+    elif op == 'script_nofind_newsub':
+        # the script stops searching altogether and gains a new submodule
+        regen.write(j(S, 'build.bfg'), "project('p')\n"
+                    "executable('prog', ['main.c'])\nsubmodule('newsub')\n")
+        regen.write(j(S, 'newsub', 'build.bfg'),
+                    "static_library('ns', ['ns.c'])\n")
+        regen.write(j(S, 'newsub', 'ns.c'), 'int ns;\n')
+    elif op == 'edit_newsub':
+        if not os.path.exists(j(S, 'newsub', 'build.bfg')):
+            return None
+        with open(j(S, 'newsub', 'build.bfg'), 'a') as f:
+            f.write("command('ns%d', cmd=['true'])\n" % n)
     elif op == 'rename_sub':
         if not os.path.exists(j(lib, 'deep')) or \
                 os.path.exists(j(lib, 'deeper%d' % n)):
@@ -318,6 +330,12 @@ def main(argv):
         for b in (('make', 'ninja') if not ck.quick else ('make',)):
             for d in directed:
                 cases.append({'variant': v, 'backend': b, 'edits': d})
+    # the script stops searching (no cached search remains) and gains a
+    # submodule, whose script is edited next
+    for v in ('find', 'findrec2', 'hdrdir'):
+        for b in ('make', 'ninja'):
+            cases.append({'variant': v, 'backend': b, 'edits': [
+                'script_nofind_newsub', 'edit_newsub', 'edit_newsub']})
     # every script of a tree of submodules is an input of the regeneration
     for v in ('sub', 'subsub'):
         for b in ('make', 'ninja'):
